@@ -94,7 +94,7 @@ def strategy(tier):
 
 
 def examples(tier):
-    return 320 if tier == "quick" else 6000
+    return 320 if tier == "quick" else 60000
 
 
 FIXED = [
